@@ -59,7 +59,7 @@ def g_worker(task):
 def ct_worker(task):
     ctx = get_ctx()
     r = provrun.run(task, RED, inplace=False, frozen=True, initializing=False, deepcopy_mode="inline",
-                    setattr_mode="inline", configure=_unstub_invalidate)
+                    setattr_mode="inline", configure=_unstub_invalidate, alias=True)
     viols, raises = [], []
     for p in r["paths"]:
         for e in p["trace"]:
@@ -135,7 +135,7 @@ def init_worker(_):
     return {"rows": rows, "functions": sorted(it.functions_entered)}
 
 
-def check(ctx, rep: Report):
+def _check_main(ctx, rep: Report):
     rep.envs.append({"frozen": True, "initializing": False, "force": False})
     # ---- G
     rep.rules["C07.G"] = "frozen, in-place: no write to receiver-reachable state on any path (non-trivial = path with such a write or a FrozenInstanceError)"
@@ -227,3 +227,9 @@ def check(ctx, rep: Report):
     rep.sample({"entry": "InitMethod.init[frozen]", "traces": [row["trace"] for row in r["rows"][:3]]})
     for b in sorted(set(bad)):
         rep.violate(Violation("C07.W", f"C07.W|window|{b[:50]}", f"InitMethod.init: {b}", "", "InitMethod.init"))
+
+
+def check(ctx, rep):
+    from . import metarules, shared
+    _check_main(ctx, rep)
+    metarules.frozen_error_bases(ctx, rep, "C07.EXC")
